@@ -21,6 +21,8 @@ use std::str::FromStr;
 pub enum Init {
     Parse { text: String },
     Build { paras: Vec<Vec<(String, String)>> },
+    /// parsed, then rebuilt by wrap_and_sort (a programmatically built tree with reformatted values)
+    Rebuilt { text: String, indent: u32, sort: bool },
     Empty,
 }
 
@@ -29,9 +31,21 @@ pub enum Init {
 pub enum Ev {
     Acquire { client: u8, index: usize, out: usize },
     DropHandle { handle: usize },
-    Set { handle: usize, name: String, value: String },
+    Set {
+        handle: usize,
+        name: String,
+        value: String,
+        /// go through convert::Deb822LikeParagraph instead of the inherent method
+        #[serde(default)]
+        via_trait: bool,
+    },
     Insert { handle: usize, name: String, value: String },
-    Remove { handle: usize, name: String },
+    Remove {
+        handle: usize,
+        name: String,
+        #[serde(default)]
+        via_trait: bool,
+    },
     Rename { handle: usize, old: String, new: String },
     Observe { handle: usize, name: String },
     AddPara { client: u8, out: usize },
@@ -129,6 +143,29 @@ fn init_live(init: &Init) -> Result<Live, String> {
         Init::Build { paras } => {
             let doc: Deb822 = paras.iter().map(|p| p.iter().map(|(k, v)| (k.clone(), v.clone())).collect::<Paragraph>()).collect();
             Ok(Live { doc, model: Model::from_paragraphs(paras.clone()), handles: BTreeMap::new(), built: true })
+        }
+        Init::Rebuilt { text, indent, sort } => {
+            if text.contains('#') {
+                return Err("rebuilt start states are limited to comment-free documents".into());
+            }
+            let parsed = Deb822::from_str(text).map_err(|e| format!("initial text does not parse strictly: {e}"))?;
+            let ind = deb822_lossless::Indentation::Spaces((*indent).max(1));
+            let by_name = |a: &deb822_lossless::lossless::Entry, b: &deb822_lossless::lossless::Entry| a.key().cmp(&b.key());
+            let wrap = |p: &Paragraph| -> Paragraph {
+                if *sort {
+                    p.wrap_and_sort(ind, false, None, Some(&by_name), None)
+                } else {
+                    p.wrap_and_sort(ind, false, None, None, None)
+                }
+            };
+            let doc = parsed.wrap_and_sort(None, Some(&wrap));
+            let t = doc.to_string();
+            let ps: Vec<Vec<(String, String)>> = doc.paragraphs().map(|p| items_of(&p)).collect();
+            let seg = segmenter::segment(&t).ok_or("rebuilt text not segmentable")?;
+            if segmenter::paragraphs(&seg) != ps {
+                return Err("reference reading of the rebuilt text differs from the implementation's (C03/C07 territory)".into());
+            }
+            Ok(Live { doc, model: Model::from_paragraphs(ps), handles: BTreeMap::new(), built: true })
         }
         Init::Empty => Ok(Live { doc: Deb822::new(), model: Model::default(), handles: BTreeMap::new(), built: true }),
     }
@@ -512,8 +549,13 @@ fn run_session(c: &Case, obs: &mut Obs, para_epoch: &mut bool) -> Result<(), Fai
                 let h = l.handles.get_mut(handle).unwrap();
                 let fop_owned: (u8, String, String, String);
                 match ev {
-                    Ev::Set { name, value, .. } => {
-                        h.node.set(name, value);
+                    Ev::Set { name, value, via_trait, .. } => {
+                        if *via_trait {
+                            obs.count("reach.edit_via_convert_trait");
+                            deb822_lossless::convert::Deb822LikeParagraph::set(&mut h.node, name, value);
+                        } else {
+                            h.node.set(name, value);
+                        }
                         l.model.set(para, name, value);
                         fop_owned = (if present { 0 } else { 1 }, name.clone(), name.clone(), value.clone());
                     }
@@ -522,8 +564,13 @@ fn run_session(c: &Case, obs: &mut Obs, para_epoch: &mut bool) -> Result<(), Fai
                         l.model.insert(para, name, value);
                         fop_owned = (1, name.clone(), name.clone(), value.clone());
                     }
-                    Ev::Remove { name, .. } => {
-                        h.node.remove(name);
+                    Ev::Remove { name, via_trait, .. } => {
+                        if *via_trait {
+                            obs.count("reach.edit_via_convert_trait");
+                            deb822_lossless::convert::Deb822LikeParagraph::remove(&mut h.node, name);
+                        } else {
+                            h.node.remove(name);
+                        }
                         l.model.remove(para, name);
                         fop_owned = (2, name.clone(), String::new(), String::new());
                     }
@@ -724,6 +771,12 @@ pub fn generate(rng: &mut Rng, tier: Tier, para_foreground: bool) -> Case {
                 .collect();
             Init::Build { paras }
         }
+        3 => {
+            // wrap_and_sort glues comment lines to whatever follows them (C07, not claimed): rebuilt start
+            // states are taken from comment-free documents only
+            let f2 = text::DocFlags { comments: false, ..flags.clone() };
+            Init::Rebuilt { text: text::doc(rng, &f2), indent: 1 + rng.below(4) as u32, sort: rng.chance(1, 2) }
+        }
         _ => Init::Parse { text: text::doc(rng, &flags) },
     };
     // the generator steps the list model so that events make sense
@@ -733,6 +786,10 @@ pub fn generate(rng: &mut Rng, tier: Tier, para_foreground: bool) -> Case {
             None => Model::default(),
         },
         Init::Build { paras } => Model::from_paragraphs(paras.clone()),
+        Init::Rebuilt { .. } => match init_live(&init) {
+            Ok(l) => l.model,
+            Err(_) => Model::default(),
+        },
         Init::Empty => Model::default(),
     };
     let max_steps = match tier {
@@ -792,7 +849,7 @@ pub fn generate(rng: &mut Rng, tier: Tier, para_foreground: bool) -> Case {
                     2 => {
                         let value = unique_value(rng, seq, flags.non_ascii, flags.multiline);
                         model.set(id, &name, &value);
-                        Ev::Set { handle: h, name, value }
+                        Ev::Set { handle: h, name, value, via_trait: rng.chance(1, 8) }
                     }
                     3 => {
                         let value = unique_value(rng, seq, flags.non_ascii, flags.multiline);
@@ -801,7 +858,7 @@ pub fn generate(rng: &mut Rng, tier: Tier, para_foreground: bool) -> Case {
                     }
                     4 => {
                         model.remove(id, &name);
-                        Ev::Remove { handle: h, name }
+                        Ev::Remove { handle: h, name, via_trait: rng.chance(1, 8) }
                     }
                     5 => {
                         let new = pick_name(rng, &existing);
@@ -876,6 +933,12 @@ pub fn shrink(c: &Case) -> Vec<Case> {
                     p[i].remove(j);
                     out.push(Case { init: Init::Build { paras: p }, events: c.events.clone() });
                 }
+            }
+        }
+        Init::Rebuilt { text, indent, sort } => {
+            out.push(Case { init: Init::Parse { text: text.clone() }, events: c.events.clone() });
+            for t in text::shrink_text(text) {
+                out.push(Case { init: Init::Rebuilt { text: t, indent: *indent, sort: *sort }, events: c.events.clone() });
             }
         }
         Init::Empty => {}
